@@ -217,6 +217,49 @@ func checkC13(w *World, r *Report) {
 	r.Rule("R13.6", "every restriction along the chain gets its say: in package schema no verdict (error result) of a restriction check is overwritten or dropped before it has been examined — in particular each pattern of each chain level is tested before the next one runs", 1)
 	r.guard("R13.6", func() { errRule(w, r, "R13.6", []string{"schema"}, nil) })
 
+	r.guard("R13.4", func() { c13EveryPartChecked(w, r) })
+
+	r.Rule("R13.7", "a derived type never shares restriction storage with another use of its base: the compiler keeps no table of built schema.Type values (each use of a typedef builds its own chain, which is what makes appending a level's patterns/ranges to the base's slices safe)", 1)
+	r.guard("R13.7", func() {
+		ct := w.Pkg("compile").Types.Scope().Lookup("Compiler")
+		if ct == nil {
+			panic(undecided{"compile.Compiler"})
+		}
+		st, ok := ct.Type().Underlying().(*types.Struct)
+		if !ok {
+			panic(undecided{"compile.Compiler is not a struct"})
+		}
+		var mentions func(t types.Type, d int) bool
+		mentions = func(t types.Type, d int) bool {
+			if d > 6 {
+				return false
+			}
+			switch x := t.(type) {
+			case *types.Named:
+				if x.Obj().Pkg() != nil && x.Obj().Pkg().Name() == "schema" && x.Obj().Name() == "Type" {
+					return true
+				}
+				return false
+			case *types.Map:
+				return mentions(x.Elem(), d+1) || mentions(x.Key(), d+1)
+			case *types.Slice:
+				return mentions(x.Elem(), d+1)
+			case *types.Array:
+				return mentions(x.Elem(), d+1)
+			case *types.Pointer:
+				return mentions(x.Elem(), d+1)
+			}
+			return false
+		}
+		bad := ""
+		for i := 0; i < st.NumFields(); i++ {
+			if mentions(st.Field(i).Type(), 0) {
+				bad = st.Field(i).Name()
+			}
+		}
+		r.Check(bad == "", "R13.7", "Compiler holds no built types", ct.Pos(), fmt.Sprintf("%d fields, none stores schema.Type values", st.NumFields()), "Compiler."+bad+" keeps built schema.Type values: a type shared between two derivations has its pattern/range slices appended to by both (append into spare capacity of the shared backing array), so one derived type ends up enforcing the other's restriction")
+	})
+
 	r.Rule("R13.5", "a default that the final type rejects is refused: validateDefault is called unconditionally on every path that returns a type from makeBuiltinType and refineType, and it validates the default with the type's own Validate", 3)
 	r.guard("R13.5", func() {
 		vd := w.Method("compile", "Compiler", "validateDefault")
